@@ -9,6 +9,7 @@ observable and checked against generic invariants.
 """
 from .. import flowcheck
 from .. import floworacle as fo
+from .. import floworacle_r3 as f3
 
 LEAN_MODULES = ['Props.C02', 'Props.Agreement']
 TRUSTED = ['harness/flow_impl.py (yaml renderer, canonicaliser, virtual clock, scripted random.uniform)',
@@ -17,18 +18,20 @@ TRUSTED = ['harness/flow_impl.py (yaml renderer, canonicaliser, virtual clock, s
            'CPython, ruamel.yaml (modelled, not verified)']
 ASSUMPTIONS = ['formatting inside decorators is restricted to the simple {key} grammar of PypyrModel/Fmt.lean',
                'context keys are strings; dict keys never mix bool/int/float',
-               'log output, real time and BaseException other than Exception subclasses are outside the observables']
+               'log output (not the log LEVEL: that is a generated input), real time and BaseException other than Exception subclasses are outside the observables']
 
 
 def run(env, res):
     res.rule = ('directed families (expectation from the property text) first, then seeded random pipelines '
                 '(1-3 pipelines, 1-4 groups, 0-4 steps per group, decorators with p~0.25 each, foreach items incl. '
                 'None/0/\'\'/False/[]/{}, 12% with a malformed group body or sequence item, 35% written in another '
-                'yaml layout: flow style, JSON, first step on line 1, other indentation); a case is '
+                'yaml layout: flow style, JSON, first step on line 1, other indentation, single-quoted / plain / block scalars, anchors + aliases, merge keys; every 4th case runs with the root logger at DEBUG, every 8th at INFO, every 8th at NOTIFY - the log level is an input); a case is '
                 'non-trivial when the model accepts it and it terminates; distinct by canonical program text')
     directed = [('c02', fo.c02_family, env.n(900, 100000)), ('c01-straight', fo.c01_family, env.n(150, 2000)),
                 ('c02-parser-handler', fo.c02_parser_handler_family, env.n(18, 100000)),
-                ('c11-self', fo.c11_self_family, env.n(20, 100000)), ('c01-names', fo.c01_names_family, env.n(20, 100000))]
+                ('c11-self', fo.c11_self_family, env.n(20, 100000)), ('c01-names', fo.c01_names_family, env.n(20, 100000)),
+                ('c02-jump-queue', f3.c02_jump_queue_family, env.n(27, 100000)),
+                ('c03-jump-decorated', f3.c03_jump_decorated_family, env.n(40, 100000))]
     flowcheck.run_streams(env, res, directed, env.n(400, 100000), weights={'stop': 2, 'stoppipeline': 2, 'stopstepgroup': 2.5, 'jump': 2, 'call': 3, 'pype': 2, 'fail': 1.5},
                           random_monitor=flowcheck.monitor_all)
 
